@@ -158,6 +158,12 @@ def run_sim(
 def hang_check(out, *, allow_steps_inconclusive=True):
     """Translate scheduler verdicts into Violation / Inconclusive. Call first in every sim oracle."""
     v = out.sim.verdict
+    if out.exc is not None and not isinstance(out.exc, Violation):
+        # the scenario function itself raised: whatever the scheduler says afterwards (leaked threads...) is a consequence
+        import traceback
+
+        tb = ''.join(traceback.format_exception(type(out.exc), out.exc, out.exc.__traceback__))[-1500:]
+        raise Violation('scenario_exception', f'{type(out.exc).__name__}: {out.exc}\n{tb}', signature=['exc', type(out.exc).__name__])
     if v is None:
         return
     if v == 'steps':
